@@ -2,7 +2,8 @@
 # usage: tools/round3.sh <prop> <n> [extra checks...]  -- import, confirm and catch one third-round seeded change
 set -u
 P=$1; N=$2; shift 2
-ID=$P-m$((N+4))
+R=${ROUND:-3}
+ID=$P-m$((N+4+2*(R-3)))
 mkdir -p /var/tmp/r3
 {
 python3 /verif/tools/import_seeded3.py $P $N || exit 1
